@@ -495,6 +495,22 @@ class PoolManager(RequestMethods):
         kw["retries"] = retries
         kw["redirect"] = redirect
 
+        # A Host header that names the host we are being redirected away from
+        # (a forwarding ProxyManager sets one for every request) must not be
+        # carried over to a different host.
+        new_netloc = parse_url(redirect_location).netloc
+        if u.netloc and new_netloc != u.netloc:
+            stale = [
+                header
+                for header in kw["headers"]
+                if header.lower() == "host" and kw["headers"][header] == u.netloc
+            ]
+            if stale:
+                new_headers = kw["headers"].copy()
+                for header in stale:
+                    new_headers.pop(header, None)
+                kw["headers"] = new_headers
+
         log.info("Redirecting %s -> %s", url, redirect_location)
 
         response.drain_conn()
